@@ -89,6 +89,20 @@ Lemma noncallable_returned env recv p args kw st :
   eval_call R env recv p args kw st = (Ok p, st).
 Proof. intros Hb Hf. destruct p; try reflexivity; [now elim (Hf id)|now elim (Hb b)]. Qed.
 
+(* a callable property is invoked with the receiver as the first argument (built-in, function);
+   an iterator literal held as a property is returned, not run *)
+Lemma callable_gets_receiver_first env recv args kw st :
+  (forall b, eval_call R env recv (VBuiltin b) args kw st = r_callval R env (VBuiltin b) (recv :: args) kw st) /\
+  (forall fid c, nth_error (funcs st) fid = Some c -> ckind c = KFunc ->
+     eval_call R env recv (VFunc fid) args kw st = r_callval R env (VFunc fid) (recv :: args) kw st) /\
+  (forall fid c, nth_error (funcs st) fid = Some c -> ckind c = KIter ->
+     eval_call R env recv (VFunc fid) args kw st = (Ok (VFunc fid), st)).
+Proof.
+  repeat split.
+  - intros fid c H K. cbn [eval_call]. unfold bind, get_clo. rewrite H, K. reflexivity.
+  - intros fid c H K. cbn [eval_call]. unfold bind, get_clo. rewrite H, K. reflexivity.
+Qed.
+
 (* bear: the child's prototype is the receiver and its own properties are those of the source *)
 Lemma bear_spec env proto sid src kw st :
   get_obj st sid = Some src ->
